@@ -89,6 +89,13 @@ func load() {
 			var b8 [8]byte
 			binary.BigEndian.PutUint64(b8[:], v)
 			tapeBuf = append(tapeBuf, b8[:]...)
+		case "int63":
+			k, _ := new(big.Int).SetString(fmt.Sprint(d.Value), 10)
+			var b8 [8]byte
+			if k != nil {
+				binary.BigEndian.PutUint64(b8[:], k.Uint64())
+			}
+			tapeBuf = append(tapeBuf, b8[:]...)
 		case "real":
 			// not forced
 			var b8 [8]byte
@@ -200,6 +207,9 @@ func Assert(c bool, label string) {
 		panic(stop{"CONFIRMED assert " + label})
 	}
 }
+
+// Block marks a point where the code under test would block for ever.
+func Block(what string) { panic(stop{"BLOCKED " + what}) }
 
 func Reach(label string)   {}
 func Note(s string)        {}
